@@ -27,11 +27,11 @@ def gen_case(seed, tier="quick"):
     n = 1
     for s in shape:
         n *= s
-    dt = rng.choice(("f8", "f8", "f8", "f4", "i8"))
+    dt = rng.choice(("f8", "f8", "f8", "f4", "i8", ">f8", "<f4", "i4"))
     cols = {}
     for g in gn:
         vals = [C.value(rng, g) for _ in range(n)]
-        if dt == "i8":
+        if dt in ("i8", "i4"):
             vals = [int(round(v)) or 1 for v in vals]
         cols[g] = vals
     how = rng.choice(("cols", "rows", "cls", "view", "dtobj")) if (len(shape) == 1 and n > 0) else "cols"
@@ -267,6 +267,15 @@ def run_case(case, vector):
             new = derive(L, lambda x: x.swapaxes(0, -1), lambda x: x.swapaxes(0, -1), origin="swapaxes(0,-1)")
         elif k == "mask":
             if a.ndim == 0 or a.shape[0] == 0:
+                continue
+            if a.ndim >= 2 and r[1] % 2 and a.size:
+                # a mask of the full shape selects elements: a 1-D array of the same class
+                m = (numpy.arange(a.size).reshape(a.shape) * 7 + r[0]) % 3 != 0
+                new = derive(L, lambda x: x[m], lambda x: x[m], origin="mask(full shape)")
+                if new is not None:
+                    live.append(new)
+                    stats["arrays"] += 1
+                    check_array(vector, new, i, st, viol, case)
                 continue
             m = numpy.array([(r[0] >> q) & 1 for q in range(a.shape[0])], dtype=bool)
             new = derive(L, lambda x: x[m], lambda x: x[m], origin="mask")
